@@ -35,12 +35,19 @@ LEVEL_TEXT = ("Coq theorems over an exact-rational executable model of G_E_Pheno
               "every one of the nenv environments in force at the call is simulated (also after nenv was reassigned); a state machine over (protocol parameters, "
               "genomic model, population) for sessions on one protocol object, with theorems that every call's table is a function of the state in force at that call and its draws only "
               "(no dependence on history) and satisfies the single-call statements for the labels, genotypes, coefficients and design in force. The model is tied to the code "
-              "by evaluating it inside Coq against the implementation's outputs on generated trials/tables and whole sessions")
+              "by evaluating it inside Coq against the implementation's outputs on generated trials/tables and whole sessions, and by 42 kernel expressions REGENERATED FROM THE SOURCE on every run "
+              "(Gen/C14_Kernel.v: the record formula and its association, the block labels env+1/rep+1, the loop headers zip(range(nenv), nrep)/range(env_nrep), the refusal test len(nrep) < nenv with the "
+              "call's argument order, which variance parameter scales which effect, the label columns, prefix/index/width of the generated TaxonNN/TraitN names in both protocols, (1-h2)/h2*var of both "
+              "heritability setters, the nenv setter's re-broadcast test and numpy.full arguments, the nrep/variance setters' numpy.full arguments, TruePhenotyping's group-column test, TrueBreedingValue's "
+              "argument, the estimate's group-by key test, dropna/as_index/aggregation function, both from_numpy argument lists and the hash join's key/destination/source) that are proved equal to the hand "
+              "model and about which the cell, calibration, re-broadcast and alignment theorems are restated (C14_kernel_*); scale covariance of the record formula and of the error variance; a small store model "
+              "of which label arrays a returned table shares with the population (G_E table isolated; TruePhenotyping table with explicit labels shares them: known finding)")
 LEVEL_NOTE = ("trusted: Coq kernel + vm_compute; pandas groupby/mean, numpy matmul/var and the scale/unscale round trip of the breeding "
               "value matrices are compared within 2^-30 relative tolerance against the exact rational (summation order not modelled); "
               "numpy.random.Generator.multivariate_normal is trusted (scripted as mean + z*sqrt(diag cov) by the harness generator): "
               "'realised variances converge' is only monitored with fixed seeds, not proved; theorems are about the Gallina model, "
-              "the tie to the code is differential on generated inputs")
+              "the tie to the code is differential on generated inputs plus the regenerated kernel expressions (translator harness/translate/c14_kernel.py, fail closed, trusted); "
+              "at scales below 1 the in-Coq comparison keeps its absolute tolerance 2^-30 (vacuous at 2^-40): there the independent predicate compares with a tolerance that shrinks with the scale")
 TECHNIQUE = "Coq proof over an executable exact-rational model; in-Coq vm_compute correspondence with the implementation; fixed-seed statistical monitor"
 RULE = ("case = trial (phased genotypes n in 1..12 incl. 10/11 for label widths, labels absent/unsorted/duplicated, groups absent/present, "
         "additive model with 1-2 fixed effects, nenv 1..3 (in 15% reassigned after construction to 1..nenv+2, for integer and array nrep: re-broadcast, truncation and refusal; 7 such designs always present), nrep scalar or per-environment, each variance None/scalar/array/zero, dyadic "
@@ -50,8 +57,14 @@ RULE = ("case = trial (phased genotypes n in 1..12 incl. 10/11 for label widths,
         "(one protocol object of either class, 2..4 calls interleaved with 1..3 operations each drawn from: in-place genotype / taxa (also a reordering of the same labels) / group update, "
         "another population object (same or other size), u_a / beta update, copy / deepcopy, nenv / nrep / variance assignments incl. invalid ones, set_h2 / set_H2 incl. invalid targets; "
         "14 fixed scripts always present); "
+        "every trial/session additionally draws: a scale 2^k (k in -40,-20,-8,0,10,20) for effects, fixed effects and standard deviations (zeros stay exact zeros), the route by which the population "
+        "(constructor / copy / deepcopy / select_taxa out of a larger population / mat-taxa-taxa_grp setters), the genomic model (constructor / deepcopy / coefficient setters), the protocol (constructor / "
+        "its copy() / deepcopy() methods / defaults + setters) and the estimator (constructor / setters, one object shared by both calls) are obtained, and whether miscout is passed; fixed corners: 130 taxa, 300 markers, "
+        "variance vectors mixing zeros and non-zeros at every scale, 8 aliasing probes; sessions reuse ONE estimator object reconfigured through its setters, replace the model object through the gpmod setter, copy through copy()/deepcopy(); "
+        "after every call the inputs are compared with their snapshot and the returned table / matrix is overwritten in place to see that no input follows; "
         "all from one PRNG; non-trivial = >= 2 taxa, >= 2 records for some taxon and a non-identity row permutation (session: >= 2 calls with a change of the configuration between them); distinct by SHA-256 of the case")
-TRUSTED = ["pandas DataFrame.groupby(sort=True, dropna=False).agg(mean) (modelled as sorted distinct keys + arithmetic mean, compared in tolerance regime T)",
+TRUSTED = ["harness/translate/c14_kernel.py (ast -> Gallina for the 42 kernel expressions; fail closed on any other statement shape) and the entry-point audit tables COVERED / SKIPPED / PARAMS of this module",
+           "pandas DataFrame.groupby(sort=True, dropna=False).agg(mean) (modelled as sorted distinct keys + arithmetic mean, compared in tolerance regime T)",
            "numpy.random.Generator.multivariate_normal for diagonal covariance (scripted as mean + z*sqrt(var)); distributional convergence only monitored",
            "DenseBreedingValueMatrix.from_numpy/unscale round trip (property C15) within 2^-30 relative",
            "DenseAdditiveLinearGenomicModel.gegv/gebv/var_A/var_G are modelled as Z@u_a + (beta[0] + mean-weighted other fixed effects) and population variance"]
@@ -491,9 +504,10 @@ def run_impl(case):
         tdf = tp.phenotype(pg, miscout={}) if misc is not None else tp.phenotype(pg)
         r = _canon_df(tdf)
         r["var_err"] = [float(x) for x in tp.var_err]
-        r["set_H2_refused"] = "exc" in _try(lambda: tp.set_H2(0.5, pg))
+        raised = lambda x: isinstance(x, dict) and "exc" in x
+        r["set_H2_refused"] = raised(_try(lambda: tp.set_H2(0.5, pg)))
         def ro(): tp.var_err = numpy.zeros(t)
-        r["var_err_readonly"] = "exc" in _try(ro)
+        r["var_err_readonly"] = raised(_try(ro))
         r["inputs_unchanged"] = inputs_intact()
         if not case.get("alias_probe"): return r
         scribble(tdf)                                          # aliasing: a write into the returned table must not reach the population
